@@ -318,6 +318,12 @@ type Ctx struct {
 	evalDefs   []logEntry // definitions of observation symbols (always included)
 	obsOK      map[string]bool
 	defMemo    map[string]Term
+	recDefs    []recDefText // define-fun-rec of recursive spec functions (emitted when used)
+}
+
+type recDefText struct {
+	name, text string
+	syms       []string
 }
 
 func NewCtx(unit string) *Ctx {
@@ -541,6 +547,29 @@ func (c *Ctx) query(o *Obligation, withModel bool, dropQuant bool) string {
 			}
 		}
 	}
+	// recursive spec functions that are used (directly or by another used one), in definition order
+	var recOut strings.Builder
+	for changed := true; changed; {
+		changed = false
+		for i := range c.recDefs {
+			d := &c.recDefs[i]
+			if rel[d.name] && !rel["!def:"+d.name] {
+				rel["!def:"+d.name] = true
+				for _, sy := range d.syms {
+					if !rel[sy] {
+						rel[sy] = true
+						changed = true
+					}
+				}
+			}
+		}
+	}
+	for _, d := range c.recDefs {
+		if rel["!def:"+d.name] {
+			recOut.WriteString(d.text)
+			recOut.WriteByte('\n')
+		}
+	}
 	var b strings.Builder
 	if withModel {
 		b.WriteString("(set-option :produce-models true)\n")
@@ -602,6 +631,7 @@ func (c *Ctx) query(o *Obligation, withModel bool, dropQuant bool) string {
 		b.WriteString(d)
 		b.WriteByte('\n')
 	}
+	b.WriteString(recOut.String())
 	for i := 0; i < n; i++ {
 		if include[i] {
 			if dropQuant && (strings.Contains(c.log[i].text, "(forall ") || strings.Contains(c.log[i].text, "(exists ")) {
